@@ -75,7 +75,7 @@ structure Oracle where
   yaml : String → Option Val
   /-- `load_value(s, simple_types=True)` as used by the `Any` branch, `none` = loader exception -/
   loadAny : String → Option Val
-  /-- `repr(float(i))` for `|i| ≥ 10^16` -/
+  /-- `repr(float(i))` for `|i| > 2^53` (where the conversion rounds) -/
   bigFlt : Int → String
   /-- `int(s)` for a dictionary key, `none` = ValueError -/
   intOf : String → Option Int
@@ -131,9 +131,9 @@ def fltAsInt (r : String) : Option Int :=
       if m % d == 0 then some (sgn * (m / d)) else .none
   | _, _ => .none
 
-/-- `repr(float(i))`: exact for `|i| < 10^16`, the oracle above -/
+/-- `repr(float(i))`: the conversion is exact for `|i| ≤ 2^53` (< 10^16, so `repr` is positional), the oracle above -/
 def toFlt (O : Oracle) (i : Int) : String :=
-  if i.natAbs < 10 ^ 16 then toString i ++ ".0" else O.bigFlt i
+  if i.natAbs ≤ 2 ^ 53 then toString i ++ ".0" else O.bigFlt i
 
 /-! ### Python `==` and hashability -/
 
@@ -200,54 +200,19 @@ def Lit.same : Lit → Val → Bool
 
 /-! ### the independent structural validator
 
-Written from the meaning of the typing constructs, not from the code:
-a value conforms to a hint when it has the right Python type at every level,
-tuple arity, `Literal` membership (same type *and* value), Enum membership. -/
+Written from the meaning of the typing constructs, not from the code: a value conforms to a hint when it has
+the right Python type at every level, tuple arity, `Literal` membership (same type *and* value), Enum
+membership, dictionary keys of the declared key type.
+
+`confL ll lk` is the validator with two requirements that can be relaxed: with `ll` a `Literal` member may be
+matched by Python `==` instead of identity (`True` for `Literal[1]`), with `lk` dictionary keys are not looked
+at.  `conf = confL false false` is the specification; the relaxed versions delimit the two known deviations
+of the code exactly. -/
 
 def DKey.conf : KTy → DKey → Bool
   | .str, .str _ => true
   | .int, .int _ => true
   | _, _ => false
-
-mutual
-def conf : Ty → Val → Bool
-  | .str, .str _ => true
-  | .int, .int _ => true
-  | .float, .flt _ => true
-  | .bool, .bool _ => true
-  | .none, .null => true
-  | .any, _ => true
-  | .union ts, v => confAny ts v
-  | .list t, .list xs => confAll t xs
-  | .dict k t, .dict kvs => confKvs k t kvs
-  | .tuple ts, .tuple xs => confZip ts xs
-  | .tupleVar t, .tuple xs => confAll t xs
-  | .set t, .set xs => confAll t xs
-  | .literal ls, v => ls.any (fun l => l.same v)
-  | .enum c ms, .enum c' n => c == c' && ms.contains n
-  | _, _ => false
-def confAny : List Ty → Val → Bool
-  | [], _ => false
-  | t :: ts, v => conf t v || confAny ts v
-def confAll : Ty → List Val → Bool
-  | _, [] => true
-  | t, x :: xs => conf t x && confAll t xs
-def confKvs : KTy → Ty → List (DKey × Val) → Bool
-  | _, _, [] => true
-  | k, t, (key, x) :: xs => DKey.conf k key && conf t x && confKvs k t xs
-def confZip : List Ty → List Val → Bool
-  | [], [] => true
-  | t :: ts, x :: xs => conf t x && confZip ts xs
-  | _, _ => false
-end
-
-abbrev Conforms (t : Ty) (v : Val) : Prop := conf t v = true
-
-/-! ### the validator with two requirements relaxed
-
-`confL ll lk`: as `conf`, but with `ll` a `Literal` member may be matched by Python `==` instead of
-identity (`True` for `Literal[1]`), and with `lk` dictionary keys are not looked at.  `confL false false`
-is `conf`; the relaxed versions delimit the two known deviations of the code exactly. -/
 
 def litLoose (ls : List Lit) (v : Val) : Bool := ls.any (fun l => pyEq l.toVal v)
 
@@ -282,5 +247,10 @@ def confLZip (ll lk : Bool) : List Ty → List Val → Bool
   | t :: ts, x :: xs => confL ll lk t x && confLZip ll lk ts xs
   | _, _ => false
 end
+
+/-- the specification: strict validator -/
+abbrev conf (t : Ty) (v : Val) : Bool := confL false false t v
+
+abbrev Conforms (t : Ty) (v : Val) : Prop := conf t v = true
 
 end Jap.Adapt
